@@ -544,6 +544,21 @@ fn run_polys(ctx: &Ctx) {
         // quick: 5-gons on a 3x3 grid
         polys.extend(grid_polys(5, 3, 3));
     }
+    // outlines with a corner in the middle of a side (three collinear corners in a row - common in real outlines),
+    // listed from every corner and in both senses
+    for base in [vec![(0, 0), (2, 0), (3, 0), (3, 3), (0, 3)], vec![(0, 0), (1, 0), (2, 0), (3, 0), (3, 2), (0, 2)], vec![(0, 0), (3, 0), (3, 1), (3, 3), (1, 3), (1, 1), (0, 1)]] {
+        for rev in [false, true] {
+            let mut b: Vec<IP> = base.clone();
+            if rev {
+                b.reverse();
+            }
+            for r in 0..b.len() {
+                let mut q = b.clone();
+                q.rotate_left(r);
+                polys.push(q);
+            }
+        }
+    }
     let poses: Vec<(f32, f32, [f32; 3])> = TILTS.iter().flat_map(|t| AZS.iter().flat_map(move |a| POSS.iter().map(move |p| (*t, *a, *p)))).collect();
     let local_dirs: [[f64; 3]; 3] = [[0.0, 0.0, 1.0], [0.3, 0.2, 1.0], [-0.5, 0.4, 0.7]];
     let np = polys.len() as u64;
@@ -694,14 +709,23 @@ fn run_reveals(ctx: &Ctx) {
         for &az in &azs {
             for pos in POSS {
                 for &sb in &setbacks {
-                    for w in wins {
+                    for (wi, w) in wins.into_iter().enumerate() {
+                      // outline of the wall: starting at the local origin along +x; shifted in its plane; listed from its third
+                      // corner (windows are placed in the frame of the outline: origin at its first vertex, x along its first edge)
+                      for ov in 0..(if wi == 0 { 3 } else { 1 }) {
                         n += 1;
                         ctx.eval(1);
+                        let outline: Polygon = match ov {
+                            0 => rect(5.0, 3.0),
+                            1 => vec![point![2.0, 1.0], point![7.0, 1.0], point![7.0, 4.0], point![2.0, 4.0]],
+                            _ => vec![point![5.0, 3.0], point![0.0, 3.0], point![0.0, 0.0], point![5.0, 0.0]],
+                        };
+                        let og = geom(tilt, az, Some(pos), outline.clone());
                         let mut m = Model::default();
                         m.spaces.push(space("S1", SpaceType::CONDITIONED, true, 3.0));
-                        m.walls.push(wall("w0", BoundaryType::EXTERIOR, nil(), uid("S1"), None, geom(tilt, az, Some(pos), rect(5.0, 3.0))));
+                        m.walls.push(wall("w0", BoundaryType::EXTERIOR, nil(), uid("S1"), None, og.clone()));
                         m.windows.push(window("v0", nil(), uid("w0"), Some([w[0], w[1]]), w[2], w[3], sb));
-                        let case = json!({"kind": "reveal", "tilt": tilt, "azimuth": az, "position": pos, "setback": sb, "window(x,y,w,h)": w});
+                        let case = json!({"kind": "reveal", "tilt": tilt, "azimuth": az, "position": pos, "setback": sb, "window(x,y,w,h)": w, "outline(0 at origin,1 shifted,2 from third corner)": ov});
                         let occ = m.collect_occluders();
                         let quads: Vec<Vec<[f64; 3]>> = occ
                             .iter()
@@ -712,7 +736,14 @@ fn run_reveals(ctx: &Ctx) {
                             })
                             .collect();
                         let (x, y, ww, hh, s) = (w[0] as f64, w[1] as f64, w[2] as f64, w[3] as f64, sb as f64);
-                        let tw = |l: [f64; 3]| to_world(tilt, az, pos, l);
+                        let tw = |l: [f64; 3]| to_world(tilt, az, pos, crate::geo::poly_frame_to_local(&og, l[0], l[1], l[2]));
+                        let tw_local = |l: [f64; 3]| to_world(tilt, az, pos, l);
+                        let expected_local: Vec<Vec<[f64; 3]>> = vec![
+                            vec![tw_local([x, y + hh, 0.0]), tw_local([x + ww, y + hh, 0.0]), tw_local([x + ww, y + hh, -s]), tw_local([x, y + hh, -s])],
+                            vec![tw_local([x, y, 0.0]), tw_local([x, y + hh, 0.0]), tw_local([x, y + hh, -s]), tw_local([x, y, -s])],
+                            vec![tw_local([x + ww, y, 0.0]), tw_local([x + ww, y + hh, 0.0]), tw_local([x + ww, y + hh, -s]), tw_local([x + ww, y, -s])],
+                            vec![tw_local([x, y, 0.0]), tw_local([x + ww, y, 0.0]), tw_local([x + ww, y, -s]), tw_local([x, y, -s])],
+                        ];
                         let expected: Vec<(&str, Vec<[f64; 3]>)> = vec![
                             ("top", vec![tw([x, y + hh, 0.0]), tw([x + ww, y + hh, 0.0]), tw([x + ww, y + hh, -s]), tw([x, y + hh, -s])]),
                             ("left", vec![tw([x, y, 0.0]), tw([x, y + hh, 0.0]), tw([x, y + hh, -s]), tw([x, y, -s])]),
@@ -725,6 +756,12 @@ fn run_reveals(ctx: &Ctx) {
                         }
                         ctx.nontriv(1);
                         let same = |a: &Vec<[f64; 3]>, b: &Vec<[f64; 3]>| a.len() == b.len() && a.iter().all(|p| b.iter().any(|q| (p[0] - q[0]).abs() < 1e-3 && (p[1] - q[1]).abs() < 1e-3 && (p[2] - q[2]).abs() < 1e-3));
+                        // what the code does today for outlines that are not anchored at the local origin: all four surfaces where
+                        // the window would be if its position were wall-local coordinates (one finding, not four)
+                        if ov != 0 && expected.iter().any(|(_, e)| !quads.iter().any(|q| same(q, e) && same(e, q))) && expected_local.iter().all(|e| quads.iter().any(|q| same(q, e) && same(e, q))) {
+                            ctx.violation("reveal:placed-in-wall-local-coordinates-not-in-the-frame-of-the-outline", "the four reveal surfaces lie where the window would be if its position were wall-local coordinates; the window (its sample points) lives in the frame of the wall outline", json!({"case": case, "generated": quads}));
+                            continue;
+                        }
                         for (name, e) in &expected {
                             if !quads.iter().any(|q| same(q, e) && same(e, q)) {
                                 let vertical = (tilt - 90.0).abs() < 1e-3;
@@ -733,6 +770,7 @@ fn run_reveals(ctx: &Ctx) {
                             }
                         }
                         ctx.outcome(&format!("{:?}", quads.iter().map(|q| q.iter().map(|p| [(p[0] * 100.0).round() as i64, (p[1] * 100.0).round() as i64, (p[2] * 100.0).round() as i64]).collect::<Vec<_>>()).collect::<Vec<_>>()));
+                      }
                     }
                 }
             }
@@ -756,7 +794,7 @@ pub fn run(ctx: &Ctx) -> i32 {
     run_reveals(ctx);
     ctx.finish(
         "model_checking",
-        "(a) BVH: all sequences of length 0..L over an 8-box alphabet on the {0..3}^3 grid (flat, point, two boxes with identical centres; L=4 quick / 5 thorough) x leaf size {1,2,3,30} x 88 rays (incl. directions with -0.0 components), n copies of one element, collinear centres, centres coinciding on the split axis (also at values that are not binary fractions: 4.05, 0.1, 0.7, 1e-3, 123456.7, -2.3), prefixes of a 216-box lattice, shade sets through BVH<&Occluder>; each build runs in a supervised worker process (watchdog, 4 GiB) and BVH.intersects(r).is_some() is compared with testing every obstacle; AABB::intersects itself against an f64 slab test for 48 boxes x 88 rays, and BVH over plain polygons (no box pre-check on the element side) against the one-by-one polygon test; 2..40 complementary triangles of one rectangle (identical boxes, different polygons, all centres coinciding) x leaf size {1,2,30} x an 80-ray grid over the rectangle; (b) all simple polygons (general position) with 3..4 vertices on the 4x4 grid (+5-gons 4x4 and 6-gons 3x3 in thorough, 5-gons 3x3 in quick) x poses (tilt{0,30,90,135,180} x az{0,45,90,-120,180} x 2 positions) x 64 quarter-lattice targets x 3 directions x {front-towards, front-away, behind-towards, parallel} against exact integer point-in-polygon (targets on the outline skipped) + AABB containment; (c) reveal quads for setback{.05,.2,1} x 3 window rects x 6 tilts x 5 azimuths x 2 positions against the wall's own transform; non-trivial = non-empty obstacle set / polygon with at least one expected hit / 4 reveal quads generated",
+        "(a) BVH: all sequences of length 0..L over an 8-box alphabet on the {0..3}^3 grid (flat, point, two boxes with identical centres; L=4 quick / 5 thorough) x leaf size {1,2,3,30} x 88 rays (incl. directions with -0.0 components), n copies of one element, collinear centres, centres coinciding on the split axis (also at values that are not binary fractions: 4.05, 0.1, 0.7, 1e-3, 123456.7, -2.3), prefixes of a 216-box lattice, shade sets through BVH<&Occluder>; each build runs in a supervised worker process (watchdog, 4 GiB) and BVH.intersects(r).is_some() is compared with testing every obstacle; AABB::intersects itself against an f64 slab test for 48 boxes x 88 rays, and BVH over plain polygons (no box pre-check on the element side) against the one-by-one polygon test; 2..40 complementary triangles of one rectangle (identical boxes, different polygons, all centres coinciding) x leaf size {1,2,30} x an 80-ray grid over the rectangle; (b) all simple polygons (general position) with 3..4 vertices on the 4x4 grid (+5-gons 4x4 and 6-gons 3x3 in thorough, 5-gons 3x3 in quick; + three outlines with a corner in the middle of a side, listed from every corner in both senses) x poses (tilt{0,30,90,135,180} x az{0,45,90,-120,180} x 2 positions) x 64 quarter-lattice targets x 3 directions x {front-towards, front-away, behind-towards, parallel} against exact integer point-in-polygon (targets on the outline skipped) + AABB containment; (c) reveal quads for setback{.05,.2,1} x 3 window rects x 6 tilts x 5 azimuths x 2 positions against the wall's own transform, the first window also with the wall outline shifted in its plane and listed from its third corner; non-trivial = non-empty obstacle set / polygon with at least one expected hit / 4 reveal quads generated",
         true,
         json!({}),
     )
